@@ -50,13 +50,13 @@ def add(viols, sig, what, witness):
 # ---------------------------------------------------------------------------
 # call universe
 
-def iban_generic_only(rng, k):
+def iban_generic_only(rng, k, only_cc=None):
     """IBANs that satisfy the generic rules (structure, mod 97) but not the national check of BE/ES/NO/ME."""
     from stdnum import iban
     out = []
     for v in C.corpus('iban') + C.corpus('be.iban') + C.corpus('es.iban') + C.corpus('no.iban') + C.corpus('me.iban'):
         c = iban.compact(v)
-        if c[:2] not in ('BE', 'ES', 'NO', 'ME'):
+        if c[:2] not in ('BE', 'ES', 'NO', 'ME') or (only_cc and c[:2] != only_cc):
             continue
         for _ in range(3):
             p = rng.randrange(4, len(c))
@@ -65,8 +65,10 @@ def iban_generic_only(rng, k):
             m = c[:p] + str((int(c[p]) + rng.randrange(1, 10)) % 10) + c[p + 1:]
             m = m[:2] + iban.calc_check_digits(m) + m[4:]
             out.append(m)
-        if len(out) >= k:
+        if only_cc and len(out) >= k:
             break
+    if not only_cc and len(out) > k:
+        out = rng.sample(out, k)
     return out
 
 
